@@ -13,7 +13,7 @@ def run(m):
     vd = tempfile.mkdtemp(prefix='mv-')
     for f in ('properties.jsonl', 'known_findings.json'): shutil.copy('/verif/' + f, vd + '/' + f)
     env = dict(ENV, VERIF_OVERLAY=f"{repo}/{m['file']}={m['path']}")
-    p = subprocess.run(['/verif/bin/vcheck', '-verif', vd, '-prop', 'all', '-tier', 'quick'], env=env, capture_output=True, text=True)
+    p = subprocess.run(['/verif/bin/vcheck', '-verif', vd, '-prop', 'all', '-tier', 'quick'], env=env, capture_output=True, text=True, errors='replace')
     shutil.rmtree(vd, ignore_errors=True)
     out = p.stdout
     if 'LOAD FAILURE' in out: return dict(m, verdict='invalid')
